@@ -154,7 +154,7 @@ def run(ctx: Ctx) -> None:
                 ctx.count(key, bucket=f"op/{op}")
                 mc = mn = None
                 with ctx.guard(f"C05:{op}:call", key):
-                    mc = ops.measure(U, case, i + 1, i + 11)
+                    mc = ops.measure(U, case, i + 1, i + 11, warm=(i % 3 == 0))
                     mn = ops.measure(U, base, i + 1, i + 11)
                 if mc is None or mn is None:
                     continue
